@@ -382,3 +382,19 @@ Theorem C01_sonic_batch_complete :
       s_batch_check vk cs qs ev pfs chal vtape = Ok (true, rest, length (group_queries qs)).
 Proof. exact @sonic_batch_complete. Qed.
 Print Assumptions C01_sonic_batch_complete.
+
+(* Marlin-PST13 batch flows at the trait level (free-module view): the proofs of batch_open (one open per point-label group on the
+   shared challenge tape) are accepted by PST13's own batch_check for the true evaluations, whatever randomizers the verifier
+   draws; same final tape position; one randomizer per group.  Every commitment is coordinate-wise the evaluation of its
+   (polynomial, blinding polynomial) at the trapdoor, as commit makes it; points have at least num_vars coordinates *)
+From PC Require Import Schemes.IPA Proofs.IPAFacts Schemes.PST13Batch Proofs.PST13BatchFacts Proofs.PST13BatchComplete.
+Theorem C01_pst13_batch_complete :
+  forall (FO : FieldOps) (FL : FieldLaws FO) nv s betas items cs qs ev chal vtape pfs rest,
+    maps_agree gv PItem (pR nv betas) (label_map items) (label_map cs) ->
+    (forall pl pt labels, In (pl, (pt, labels)) (groups qs) ->
+       (nv <= length pt)%nat /\ evals_true PItem pvalue (label_map items) ev pt labels) ->
+    (length (groups qs) <= length vtape)%nat ->
+    pst_batch_open nv s betas items qs chal = Ok (pfs, rest) ->
+    pst_batch_check nv betas cs qs ev pfs chal vtape = Ok (true, rest, length (groups qs)).
+Proof. exact @pst13_batch_complete. Qed.
+Print Assumptions C01_pst13_batch_complete.
